@@ -76,6 +76,23 @@ def Desc(x):
     return y
 
 
+@as_function_node("p", "q", validate_output_labels=False)
+def Multi(x, how="tuple"):
+    """two declared outputs; the function hands its two values back as whatever iterable `how` names"""
+    DESC_CALLS.append(1)
+    vals = [("p", x), ("q", x)]
+    if how == "list":
+        return vals
+    if how == "gen":
+        return (v for v in vals)
+    if how == "iter":
+        return iter(vals)
+    if how == "dictkeys":
+        return dict(vals).keys()
+    r = (vals[0], vals[1])
+    return r
+
+
 @as_macro_node("y")
 def MDesc(self, x):
     self.d = Desc(x=x)
